@@ -73,7 +73,7 @@ for prop, pre in (("C06", "c06."), ("C19", "c19.")):
 # ---- C17
 c17 = []
 for n, fn in (("invalid-user", "VerifC17InvalidUser"), ("failed-password", "VerifC17FailedPassword"), ("max-auth", "VerifC17MaxAuth")):
-    c17.append(run(n, SSHD, fn, q({"U": 24, "A": 12}), t({"U": 100, "A": 16}), reach=["c17." + {"invalid-user": "invalid", "failed-password": "failedpw", "max-auth": "maxauth"}[n] + ".event"],
+    c17.append(run(n, SSHD, fn, q({"U": 48, "A": 12}), t({"U": 100, "A": 16}), reach=["c17." + {"invalid-user": "invalid", "failed-password": "failedpw", "max-auth": "maxauth"}[n] + ".event"],
                    bounds="user name: any bytes but newline, 0/1..U; address 1..A over [0-9A-Za-z:.%_-]; port 1..5 digits"))
 write("C17", c17, ["quick tier: every input byte < 0x80", "stubs: zap, prometheus, uuid, time.Now"],
       ["user names longer than U bytes (thorough U=100 is sshd's %.100s truncation)", "addresses longer than A bytes"])
@@ -107,7 +107,9 @@ def c11runs(NQ, NT, TQ, TT):
     return runs
 c11_assume = ["no write fault is injected here (C05 covers it)", "stubs: zap, prometheus, json.Marshal, uuid, time.Now",
               "regex classes are checked per instruction to be uniform over non-ASCII runes, which makes the byte-level encoding exact for invalid UTF-8 as well"]
-write("C11", c11runs(24, 48, 28, 56), c11_assume, ["lines longer than the bounds ('very long lines')"], site_prefix="c11.")
+c11ing = [run("ingester-line", M + "/ingesters/syslog", "VerifC11IngesterLine", q({"N": 8}, ascii7=False), t({"N": 12}), reach=["c11.ingester.processed"],
+              bounds="syslog ingester Process/ParseSyslogMessage on a line of any bytes but newline, 0..N: the PID token and message handed to the processor are verbatim substrings of the line (composes with the processor-level runs: substring-of is transitive)")]
+write("C11", c11runs(24, 48, 28, 56) + c11ing, c11_assume, ["lines longer than the bounds ('very long lines')"], site_prefix="c11.")
 
 # ---- C05
 c05 = []
@@ -125,9 +127,13 @@ write("C05", c05, ["failure / unrecognised lines never forward a login: asserted
 
 # ---- C14
 write("C14", [run("render", TRK, "VerifC14Render", {"params": {"R": 8}}, {"params": {"R": 12}, "cross_check": True}, reach=["c14.rendered"],
-                  bounds="result string any bytes 0..R; action/how 0..6, object fields 0..4, 0..2 process args of 0..4 bytes; 0..2 extra subject entries; login before or after the LOGIN record; two events per session")],
-      ["the coalesced event (what aucoalesce puts into Summary/Result/Process) is the input; stubs: zap, uuid, time.Now"],
-      ["aucoalesce's own summarisation of raw records", "more than two events per session (the emitted copy is mutated after each to expose aliasing)"], site_prefix="c14.")
+                  bounds="result string any bytes 0..R; action/how 0..6, object fields 0..4, 0..2 process args of 0..4 bytes; 0..2 extra subject entries; login before or after the LOGIN record; two events per session"),
+              run("through-the-reassembler-callback", M + "/processors/auditd", "VerifC14Callback", {"params": {}}, {"params": {}}, reach=["c14.cb.group-delivered"],
+                  bounds="real reassemblerCB.ReassemblyComplete and session tracker; one SYSCALL(+EXECVE)+CWD record group parsed by the real auparse; success=yes/no; no EXECVE record or one with 1..3 quoted arguments")],
+      ["the coalesced event (what aucoalesce puts into Summary/Result/Process) is the input of the render run; stubs: zap, uuid, time.Now",
+       "callback run: aucoalesce.CoalesceMessages is the engine's model (type, timestamp, ses, pid, result, EXECVE arguments), cross-checked against the real function when the run's witness is replayed natively; ResolveIDs is a no-op"],
+      ["aucoalesce's own summarisation of raw records (action/how/object tables built from embedded YAML)", "more than two events per session (the emitted copy is mutated after each to expose aliasing)"], site_prefix="c14.",
+      init_extra=["github.com/elastic/go-libaudit/v2/auparse", "github.com/elastic/go-libaudit/v2"])
 
 # ---- C18
 HEALTH = M + "/internal/health"
@@ -197,7 +203,7 @@ AL = M + "/ingesters/auditlog"
 SL = M + "/ingesters/syslog"
 AUD = M + "/processors/auditd"
 c13 = []
-for st, nm in ((0, "pipe-waiting-for-writer"), (1, "pipe-idle"), (2, "pipe-between-records")):
+for st, nm in ((0, "pipe-waiting-for-writer"), (1, "pipe-idle"), (2, "pipe-between-records"), (3, "pipe-after-writer-went-away")):
     c13.append(run(nm, NP, "VerifC13NamedPipe", {"params": {"STATE": st}, "preempt": 2}, {"params": {"STATE": st}, "preempt": 4}, reach=["c13.pipe.returned"],
                    bounds="named-pipe ingester cancelled while " + nm.replace("-", " ")))
 for c in (0, 1, 2):
@@ -254,20 +260,24 @@ write("C15", [run("parse-lines", AUD, "VerifC15ParseLines", {"params": {"K": 3, 
 
 # ---- C08
 CMD = M + "/cmd"
-causes = ["sshd-pipe-eof", "audit-pipe-eof", "unparsable-audit-line", "sshd-path-not-a-pipe", "audit-path-not-a-pipe", "signal-while-idle", "signal-after-traffic"]
-write("C08", [run(nm, CMD, "VerifC08FailStop", {"params": {"CAUSE": i}, "preempt": -2, "max_steps": 30000000}, {"params": {"CAUSE": i}, "preempt": 0, "max_steps": 60000000}, reach=["c08.returned"],
-                  bounds="real cmd.RunNamedPipe with both pipes as FIFO models; failure cause: " + nm.replace("-", " "))
+causes = ["sshd-pipe-eof", "audit-pipe-eof", "unparsable-audit-line", "sshd-path-not-a-pipe", "audit-path-not-a-pipe", "signal-while-idle", "signal-after-traffic", "signal-before-any-writer-attached", "signal-with-audit-pipe-unattached", "sshd-pipe-eof-with-audit-pipe-unattached", "unparsable-audit-line-with-sshd-pipe-unattached"]
+write("C08", [run(nm, CMD, "VerifC08FailStop", {"params": {"CAUSE": i, "TICKHANG": 1}, "preempt": -2, "max_steps": 30000000}, {"params": {"CAUSE": i, "TICKHANG": 1}, "preempt": -1, "delays": 2, "max_steps": 60000000}, reach=["c08.returned"],
+                  bounds="real cmd.RunNamedPipe with both pipes as FIFO models; failure cause: " + nm.replace("-", " ") + "; quick: the canonical schedule (run to block, then lowest goroutine id), thorough: every schedule that departs from it at most twice (delay bound 2, preemptions included)")
               for i, nm in enumerate(causes)],
       ["the daemon function RunNamedPipe is executed from its real source (flag parsing, worker wiring, errgroup); main()'s mapping of a non-nil error to exit status 1 (log.Fatalln) and the SIGTERM/SIGINT -> context cancellation of signal.NotifyContext are read from main.go, not executed",
        "stubs: zap logger construction (nop logger), zapr, the events output file (a write sink; helpers.OpenAuditLogFileUntilSuccessWithContext), /etc/machine-id, os.Hostname, os.Stat for the model's paths, prometheus, json.Encoder (one Write per event), FIFO model, time tickers",
-       "'exits within a bounded time' is decided as: in every explored schedule RunNamedPipe returns (no goroutine it waits for stays blocked)",
+       "'exits within a bounded time' is decided as: in every explored schedule RunNamedPipe returns (no goroutine it waits for stays blocked); the daemon's timers (the session tracker's clean-up ticker in Auditd.Read, the reassembler maintenance ticker) are periodic housekeeping, so a state in which only further ticks can happen after 3 delivered ticks counts as not exiting",
        "failure under a saturated audit stream is decided at worker level in C13 (audit ingester blocked on a full channel); filling the 10000-slot channel through the pipe is outside this check"],
       ["the built binary, real signals, kernel FIFO semantics, exit status as seen by a parent process", "write failures of the events file (decided at processor level in C05)", "the optional HTTP/metrics goroutines (flags off)"], site_prefix="c08.",
       init_extra=["github.com/elastic/go-libaudit/v2/auparse", "github.com/elastic/go-libaudit/v2"])
 
 # ---- C10
-write("C10", [run("one-session-through-the-daemon", CMD, "VerifC10CausalOrder", {"params": {}, "preempt": -2, "max_steps": 30000000}, {"params": {}, "preempt": 0, "max_steps": 60000000, "max_paths": 400000}, reach=["c10.daemon-stopped"],
-                  bounds="real cmd.RunNamedPipe; one accepted public-key login and the three records (LOGIN, USER_START, CRED_DISP) of its audit session; the sshd line at every position relative to the records; records in separate writes or one write; quick: canonical non-preemptive schedule, thorough: every non-preemptive schedule")],
+write("C10", [run("one-session-through-the-daemon", CMD, "VerifC10CausalOrder", {"params": {"FORMS": 4}, "preempt": -2, "max_steps": 30000000}, {"params": {"FORMS": 4}, "preempt": -1, "delays": 1, "max_steps": 60000000, "max_paths": 400000}, reach=["c10.daemon-stopped"],
+                  bounds="real cmd.RunNamedPipe; one accepted public-key login and the three records (LOGIN, USER_START, CRED_DISP) of its audit session; the sshd line at every position relative to the records; records in separate writes or one write; each of the 4 accepted-login forms; quick: the canonical schedule (run to block, then lowest goroutine id), thorough: every schedule that departs from the canonical one at most once (delay bound 1, preemptions included)"),
+              run("hand-off-orders-at-processor-level", CMD, "VerifC10HandOff", {"params": {}, "preempt": 2, "max_steps": 30000000}, {"params": {}, "preempt": 3, "max_steps": 60000000}, reach=["c10.handoff-complete"],
+                  bounds="real sshd processor and real session tracker sharing one event writer and an unbuffered logins channel (the wiring of RunNamedPipe); each of the 4 accepted-login forms; 0, 1 or 2 audit events of the session processed before the correlator takes the login; every interleaving of the two goroutines at channel, mutex and event-write points with at most 2 (quick) / 3 (thorough) preemptions"),
+              run("each-sshd-message-form-written-once", CMD, "VerifC10WrittenOnce", {"params": {}, "preempt": 0}, {"params": {}, "preempt": 0}, reach=["c10.once.processed"],
+                  bounds="one concrete message of each of the 23 recognised sshd message forms through the real processor and the shared event writer")],
       ["'no event is torn or interleaved' is assumed at the file level: encoding/json issues one Write per Encode and the events file is opened O_APPEND (both read from the sources, neither executed); the engine checks that every event is handed to the shared writer exactly once and in causal order",
        "aucoalesce.CoalesceMessages is a model in the engine (record type, timestamp, ses=, pid=, result); the native replay of the run's witness uses the real function on the same record lines",
        "stubs as for C08"],
